@@ -74,7 +74,7 @@ def seeded(pid, wave=""):
     return meta, res, note
 
 
-out = [open(os.path.join(ROOT, "design", "head.md")).read()]
+out = [open(os.path.join(ROOT, "design", "head.md")).read().replace("@@NDEFECTS@@", str(len(known)))]
 out.append("## 3. Per property, as built\n")
 out.append("Every entry is generated from the files the check itself uses (`propcfg.py`, `lean/Siot/Props/Cxx.lean`, "
            "`KNOWN_FINDINGS.json`, `seeded/Cxx/`), so it cannot drift from them. *Theorems* lists every theorem of the property "
